@@ -1,0 +1,28 @@
+//go:build verif
+// +build verif
+
+package tengo
+
+// Verification hooks (build tag "verif"). With the tag off, verif_nohooks.go
+// supplies empty stubs and the hooks compile to nothing.
+
+// VerifProbe, when non-nil, is invoked once per dispatched VM instruction,
+// before the instruction is decoded.
+var VerifProbe func(v *VM, fn *CompiledFunction, ip, sp, basePointer, framesIndex int, allocs int64)
+
+// VerifKeepDeadCode makes optimizeFunc keep every instruction (jump
+// retargeting, source map rebuild and the trailing return still run).
+var VerifKeepDeadCode bool
+
+func verifProbe(v *VM) {
+	if VerifProbe != nil {
+		VerifProbe(v, v.curFrame.fn, v.ip+1, v.sp, v.curFrame.basePointer, v.framesIndex, v.allocs)
+	}
+}
+
+func verifKeepDead() bool { return VerifKeepDeadCode }
+
+// VerifState exposes the VM registers after a run.
+func (v *VM) VerifState() (sp, framesIndex int, allocs int64) {
+	return v.sp, v.framesIndex, v.allocs
+}
